@@ -289,9 +289,13 @@ def corpus():
 def known_signature(k, engine, case, model, spec, impl):
     """C13-same-name-panic: the minimised case panics in the model at the same load as in the implementation, where the
     spec asks for a successful load, and some load names a unit and a target alike."""
+    import vcommon as V          # lib/ is on sys.path when ./check loads the plugin
+    if engine == "e2e":
+        # C13-vrib-query-todo (class KV): every token that departs from the spec is the one the model gives - v:STALL at the
+        # query of a generated vRIB about a prefix the physical RIB holds a record of, `x` for the ops the engine then skips
+        return k.get("class") == "KV" and V.explained_by(model, spec, impl, {"KV"})
     if k.get("id") != "C13-same-name-panic" or engine != "c13":
         return False
-    import vcommon as V          # lib/ is on sys.path when ./check loads the plugin
     if "PANIC" not in model.split() or "PANIC" in spec.split() or not V.obs_match(model, impl):
         return False
     for op in case.split(";"):
